@@ -158,3 +158,51 @@ Print Assumptions C09_source_recursive_guesses_is_model.
 Print Assumptions C09_source_limit_inside_preterminal.
 Print Assumptions C09_source_run_is_limited.
 Print Assumptions C09_source_limit_exact.
+
+(* ---- translator tie of the command line glue (task T17): gen/Cli_gen.v is the translation of
+   pcfg_guesser.py (main, parse_command_line, create_save_config, load_save; harness/translate_cli.py,
+   redone on every run); see Props/C14.v for the equalities of the other translated functions *)
+From Coq Require Import String.
+From Pcfg Require Import CliModel CliModelProofs CliRt CliGenProofs.
+From PcfgGen Require Import Cli_gen.
+
+Theorem C09_source_main_is_model : forall E, run_main (py_main E) world0 = m_main E gen_version.
+Proof. exact main_eq. Qed.
+
+(* (4) the limit a session is run with is the typed one - for every argv, in every mode, also when
+   a session is restored (the save file never replaces it); the sessions get the grammar main built *)
+Theorem C09_limit_reaches_session : forall E o e log,
+  m_parse (e_int_of E) (e_argv E) = Some (true, o) -> run_main (py_main E) world0 = (e, log) ->
+  Forall (fun ev => match ev with
+                    | ECrackRun s ld lim =>
+                      ld = VBool (o_load o) /\ lim = v_limit (o_limit o) /\
+                      cs_save_filename s = VStr (save_name E o) /\ In (EGrammar (g_call (cs_pcfg s))) log
+                    | EHoneyRun s lim =>
+                      lim = v_limit (o_limit o) /\ hs_mode s = VStr (o_mode o) /\ In (EGrammar (g_call (hs_pcfg s))) log
+                    | _ => True
+                    end) log.
+Proof. exact source_session_arguments. Qed.
+
+(* the --limit validation: parse_command_line returns False exactly for a negative limit ... *)
+Theorem C09_limit_validation : forall int_of argv b o, m_parse int_of argv = Some (b, o) ->
+  (b = false <-> exists z, o_limit o = Some z /\ (z < 0)%Z).
+Proof. exact m_parse_refuses. Qed.
+
+(* ... and a refused command line (usage error, --help, negative limit) builds and runs nothing *)
+Theorem C09_refused_command_line_runs_nothing : forall E,
+  match m_parse (e_int_of E) (e_argv E) with
+  | None => run_main (py_main E) world0 = (MRaise SystemExit, [])
+  | Some (false, _) => run_main (py_main E) world0 = (MDone, [])
+  | Some (true, _) => True
+  end.
+Proof. exact source_refused. Qed.
+
+(* main, parse_command_line, create_save_config and load_save themselves write nothing to standard
+   output: every print of theirs goes to sys.stderr (a print without file=sys.stderr is translated to
+   the event EStdout) *)
+Theorem C09_main_prints_nothing_on_stdout : forall E, ~ In EStdout (snd (run_main (py_main E) world0)).
+Proof. exact source_no_stdout. Qed.
+
+Print Assumptions C09_source_main_is_model.
+Print Assumptions C09_limit_reaches_session.
+Print Assumptions C09_main_prints_nothing_on_stdout.
